@@ -5,6 +5,7 @@ import (
 	"fmt"
 	"strconv"
 	"strings"
+	"syscall"
 	"unicode/utf8"
 
 	"github.com/robertkrimen/otto"
@@ -13,7 +14,9 @@ import (
 // BudgetSentinel is what the poll-budget interrupt function panics with.
 type BudgetSentinel struct{ Polls int64 }
 
-func (b BudgetSentinel) String() string { return fmt.Sprintf("verif poll budget exhausted after %d polls", b.Polls) }
+func (b BudgetSentinel) String() string {
+	return fmt.Sprintf("verif poll budget exhausted after %d polls", b.Polls)
+}
 
 // Budget is a self re-arming interrupt function: otto polls vm.Interrupt at the top of every
 // statement / expression evaluation and calls the function it receives on the interpreter
@@ -25,6 +28,27 @@ type Budget struct {
 	Polls int64
 	Limit int64
 	Hook  func(poll int64) // optional, called at every poll before the limit test
+	// CPUSeconds, when > 0, ends the run with the budget sentinel once the process has burnt that much CPU time
+	// since Arm (getrusage; tested every 64 polls): a terminating but very slow case (each statement doing a
+	// huge amount of native work) is given up as a discard instead of occupying a shard for an hour
+	CPUSeconds float64
+	cpu0       float64
+}
+
+func cpuSeconds() float64 {
+	var ru syscall.Rusage
+	if err := syscall.Getrusage(syscall.RUSAGE_SELF, &ru); err != nil {
+		return 0
+	}
+	return float64(ru.Utime.Sec+ru.Stime.Sec) + float64(ru.Utime.Usec+ru.Stime.Usec)/1e6
+}
+
+// ArmCPU is Arm with a CPU-time cap as well.
+func ArmCPU(vm *otto.Otto, limit int64, cpuSecs float64) *Budget {
+	b := Arm(vm, limit)
+	b.CPUSeconds = cpuSecs
+	b.cpu0 = cpuSeconds()
+	return b
 }
 
 // Arm installs (or re-installs) the budget on vm with a fresh counter.
@@ -51,6 +75,9 @@ func (b *Budget) fire() {
 		b.Hook(b.Polls)
 	}
 	if b.Limit > 0 && b.Polls > b.Limit {
+		panic(BudgetSentinel{b.Polls})
+	}
+	if b.CPUSeconds > 0 && b.Polls%64 == 0 && cpuSeconds()-b.cpu0 > b.CPUSeconds {
 		panic(BudgetSentinel{b.Polls})
 	}
 }
